@@ -562,6 +562,50 @@ type constEmit struct {
 	Text  string
 }
 
+// constTexts: the constant texts v can hold in this mode: a constant, or a phi all of whose mode-feasible
+// edges are constants (`sep := ','; if json { sep = ... }; write(sep)` is the same emission as two writes).
+func (mr *ModeReach) constTexts(v ssa.Value, asRune bool) ([]string, bool) {
+	one := func(x ssa.Value) (string, bool) {
+		if asRune {
+			if n, ok := constInt(x); ok {
+				return string(rune(n)), true
+			}
+			return "", false
+		}
+		return constString(x)
+	}
+	if t, ok := one(v); ok {
+		return []string{t}, true
+	}
+	ph, ok := v.(*ssa.Phi)
+	if !ok {
+		return nil, false
+	}
+	fb := mr.Blocks[ph.Parent()]
+	var out []string
+	for i, e := range ph.Edges {
+		pred := ph.Block().Preds[i]
+		if fb != nil && !fb[pred] {
+			continue
+		}
+		feasible := false
+		for _, sc := range feasibleSuccs(pred, mr.Mode) {
+			if sc == ph.Block() {
+				feasible = true
+			}
+		}
+		if !feasible {
+			continue
+		}
+		t, ok := one(e)
+		if !ok {
+			return nil, false
+		}
+		out = append(out, t)
+	}
+	return out, len(out) > 0
+}
+
 func (mr *ModeReach) constEmissions() []constEmit {
 	var out []constEmit
 	for _, fn := range mr.Funcs() {
@@ -583,13 +627,17 @@ func (mr *ModeReach) constEmissions() []constEmit {
 				switch name {
 				case "WriteByte", "pcAppendByte", "AppendByte", "WriteRune", "pcAppendRune", "AppendRune", "AddRune":
 					args := cs.Common().Args
-					if v, ok := constInt(args[len(args)-1]); ok {
-						out = append(out, constEmit{fn, in, string(rune(v))})
+					if ts, ok := mr.constTexts(args[len(args)-1], true); ok {
+						for _, t := range ts {
+							out = append(out, constEmit{fn, in, t})
+						}
 					}
 				case "WriteString", "pcAppendString", "pcAppendStringValue", "Write", "pcAppendStringKey":
 					args := cs.Common().Args
-					if s, ok := constString(args[len(args)-1]); ok {
-						out = append(out, constEmit{fn, in, s})
+					if ts, ok := mr.constTexts(args[len(args)-1], false); ok {
+						for _, t := range ts {
+							out = append(out, constEmit{fn, in, t})
+						}
 					}
 				}
 			}
